@@ -257,6 +257,8 @@ pub fn plan(prop: &str, tier: &str) -> Option<Plan> {
                 let mut x = e1(prop, "u32", hk, 0, "", &["c02", "c03", "cheap"], n, 0, 0, "chk", secs);
                 x.engine = "e7".into();
                 x.extra.insert("stride".into(), stride.to_string());
+                // entry / raw-entry / get_mut / remove_entry calls on keys of either table as well
+                x.extra.insert("mix".into(), "1".into());
                 x
             };
             if q {
@@ -298,6 +300,7 @@ pub fn plan(prop: &str, tier: &str) -> Option<Plan> {
                 let mut x = e1(prop, "u32", H_GOOD, 0, "", &["c03", "cheap"], n, 0, 0, "chk", secs);
                 x.engine = "e7".into();
                 x.extra.insert("stride".into(), stride.to_string());
+                x.extra.insert("mix".into(), "1".into());
                 x
             };
             if q {
